@@ -9,7 +9,7 @@ Definition open_on (s : rstate) (i : N) : N := N.of_nat (List.length (filter (co
    bucket whose name has been re-created is excluded: it would release the new bucket's reference) *)
 Definition op_ok (s : rstate) (o : rop) : Prop :=
   match o with
-  | RClose h | RCloseAndDelete h =>
+  | RClose h | RCloseAndDelete h | RCloseOpen h _ _ _ _ =>
       match get_handle s h with
       | Some hd => match alookup String.eqb (h_name hd) (r_buckets s) with Some i => i = h_inst hd | None => True end
       | None => True
@@ -389,6 +389,7 @@ Proof.
   - apply rinv_close; assumption.
   - apply rinv_cad; exact Hinv.
   - apply rinv_write; exact Hinv.
+  - apply rinv_open. apply rinv_close; assumption.
 Qed.
 
 (* histories in which no stale handle of a re-created bucket name is closed or deleted *)
